@@ -7,6 +7,9 @@ cd "$(dirname "$0")"
 mkdir -p bin tmp evidence replays
 cd engine
 GO=/opt/veriftools/go1.26.8/bin/go
+# do not depend on how the caller's environment locates the module cache
+[ -n "$HOME" ] || export HOME=/root
+if [ -d /root/go/pkg/mod ]; then : "${GOPATH:=/root/go}" "${GOMODCACHE:=/root/go/pkg/mod}"; export GOPATH GOMODCACHE; fi
 if GOFLAGS=-mod=vendor GOPROXY=off GOSUMDB=off GOTOOLCHAIN=local $GO build -o ../bin/gosym ./cmd/gosym; then
   echo "built bin/gosym (vendored dependencies)"
 else
